@@ -15,7 +15,7 @@ RULE = ("codepoints: every one of the 1,114,112 code points is compared with a l
         "distinct = distinct (workload, input) signatures.")
 ASSUMPTIONS = ["contents of rich/_cell_widths.py CELL_WIDTHS are the Unicode width table (trusted data)",
                "reference width = independent linear walk over that table"]
-REQUIRED = ["mon.get_line_length", "mon.result_poisoning", "mon.codepoint", "mon.codepoint_orders", "mon.cell_len", "mon.cache_history", "mon.set_cell_size",
+REQUIRED = ["mon.threshold_sizes", "mon.get_line_length", "mon.result_poisoning", "mon.codepoint", "mon.codepoint_orders", "mon.cell_len", "mon.cache_history", "mon.set_cell_size",
             "mon.chop_cells", "mon.adjust_line_length", "mon.split_and_crop", "mon.set_shape",
             "mon.simplify", "mon.split_lines"]
 MIN_NONTRIVIAL = {"quick": 2000, "thorough": 20000}
@@ -477,6 +477,74 @@ def wl_simplify_split(ctx, rng, case_no):
     ctx.case_done(("simp", tuple(_seg_repr(segs))), len(segs) >= 2, wit)
 
 
+def wl_threshold_sizes(ctx, rng, case_no):
+    """Sizes on both sides of the powers of two at which an implementation might switch strategy (256, 1024, 4096,
+    65536): very long single tokens and very long lines through the same oracles as the small ones."""
+    cells, segment, _ = _mods()
+    Segment = segment.Segment
+    n = rng.choice([255, 256, 257, 1023, 1024, 1025, 1500, 4095, 4096, 4097, 5000, 9000, 65537])
+    kind = rng.choice(["ascii", "wide", "balanced", "balanced", "sparse"])
+    if kind == "ascii":
+        s = "".join(rng.choice(S.ASCII_LETTERS) for _ in range(n))
+    elif kind == "wide":
+        s = "".join(rng.choice(S.WIDE[:50]) for _ in range(n))
+    elif kind == "balanced":
+        # as many double-width as zero-width characters: cell length == character count although no prefix need fit
+        half = [rng.choice(S.WIDE[:50]) for _ in range(n // 4)] + [rng.choice(S.ZERO[:20]) for _ in range(n // 4)]
+        rest = [rng.choice(S.ASCII_LETTERS) for _ in range(n - len(half))]
+        if rng.random() < 0.5:
+            half.sort(key=lambda c: cellref.char_width(c), reverse=True)     # all the wide ones first
+            s = "".join(half + rest)
+        else:
+            chars = half + rest
+            rng.shuffle(chars)
+            s = "".join(chars)
+    else:
+        s = S.sparse_odd_string(rng, n, n)
+    ref = cellref.width(s)
+    wit = {"length": n, "kind": kind, "head": s[:40]}
+    ctx.count("mon.threshold_sizes")
+    if cells.cell_len(s) != ref:
+        ctx.violation("cell_len-mismatch:long-string", dict(wit, got=cells.cell_len(s), ref=ref))
+    for total in sorted({0, 1, ref - 1, ref, ref + 1, ref // 2, rng.randint(0, ref + 10)}):
+        if total < 0:
+            continue
+        out = cells.set_cell_size(s, total)
+        if cellref.width(out) != total or not s.startswith(out.rstrip(" ")):
+            ctx.violation("set_cell_size-wrong:long-string", dict(wit, total=total, out_cells=cellref.width(out)))
+            break
+    for width in (2, 3, rng.choice([7, 40, 80]), rng.choice([255, 1024])):
+        pieces = cells.chop_cells(s, width)
+        if "".join(pieces) != s:
+            ctx.violation("chop_cells-not-concat:long-token", dict(wit, width=width))
+            break
+        bad = [i for i, p in enumerate(pieces) if cellref.width(p) > width]
+        if bad:
+            ctx.violation("chop_cells-piece-too-wide:long-token",
+                          dict(wit, width=width, index=bad[0], piece_cells=cellref.width(pieces[bad[0]])))
+            break
+    # a short line padded / cropped to a very long length, and a very long line cropped
+    line = [Segment(s[: rng.choice([0, 3, 11])]), Segment("x", None)]
+    src = sum(cellref.width(x.text) for x in line)
+    for length in (n, n + 7):
+        out = Segment.adjust_line_length(list(line), length, pad=True)
+        got = sum(cellref.width(x.text) for x in out if not x.is_control)
+        if got != length:
+            ctx.violation("adjust_line_length-wrong-length:long-line", dict(wit, length=length, got=got, source_cells=src))
+            break
+    long_line = [Segment(s)]
+    for length in (max(0, ref - 5), ref // 2, 4096, 4097):
+        out = Segment.adjust_line_length(list(long_line), length, pad=True)
+        got = sum(cellref.width(x.text) for x in out if not x.is_control)
+        if got != length:
+            ctx.violation("adjust_line_length-wrong-length:long-line", dict(wit, length=length, got=got, source_cells=ref))
+            break
+    shaped = Segment.set_shape([list(line)], n, 2)
+    if [sum(cellref.width(x.text) for x in l) for l in shaped] != [n, n]:
+        ctx.violation("set_shape-wrong-length:long-line", dict(wit, widths=[sum(cellref.width(x.text) for x in l) for l in shaped]))
+    ctx.case_done(("thr", n, kind, s[:60]), True, wit)
+
+
 def wl_repo_suite_under_contracts(ctx):
     """The repository's own test-suite as a workload: 440 realistic call sequences run with the contract catalogue
     (rv/monitor/contracts.py) installed on the real functions, so every nested call is checked."""
@@ -529,6 +597,7 @@ def workloads(tier):
         WL("split_and_crop_lines", wl_split_crop, 300000 if big else 20000),
         WL("set_shape", wl_set_shape, 200000 if big else 10000),
         WL("simplify_split_lines", wl_simplify_split, 300000 if big else 20000),
+        WL("threshold_sizes", wl_threshold_sizes, 6000 if big else 400),
         WL("repo_suite_under_contracts", wl_repo_suite_under_contracts, kind="custom"),
     ]
 
